@@ -846,8 +846,13 @@ class EvolvedMF:
                     M_eject = Mr.BH.sum() * (1.0 - self.BH_ret_dyn)
                     M_ret = Mr.BH.sum() - M_eject
 
+                    # Individual mass of the lightest BHs (bin centre if empty)
+                    BH_bins = self.massbins.bins.BH
+                    m_BH_min = (Mr.BH[0] / Nr.BH[0] if Nr.BH[0] > 0
+                                else 0.5 * (BH_bins.lower[0] + BH_bins.upper[0]))
+
                     # If kicking basically all, skip ahead
-                    if 0. <= M_ret / (Mr.BH[0] / Nr.BH[0]) < self.Nmin:
+                    if 0. <= M_ret / m_BH_min < self.Nmin:
                         Mr.BH[:] = 0
                         Nr.BH[:] = 0
 
